@@ -108,6 +108,18 @@ CHECKS["C17"] = dict(
     technique="Coq proof (induction over the iteration budget) + generated source facts by vm_compute + scripted-run correspondence",
     design="4/C17")
 
+CHECKS["C14"] = dict(
+    text="Theorems about a Gallina model of the flow-path chain (any number of panels, tubes, multipliers, wall grids, any "
+         "fluid laws): the chain's residual vanishes iff the first node equals the inlet and, panel by panel in declared "
+         "order with the previous node as inlet, every tube's enthalpy gain equals the convective heat from its wall and "
+         "each manifold is the multiplier-weighted mean; reported velocities carry exactly the prescribed mass flow; "
+         "reported fluid temperatures are affine from panel inlet to tube outlet.  Tied to flowpath.py by comparing "
+         "RJ(T)[0], recover_tube_results and the residual at solve()'s output with the model on random chains.",
+    note="Trusted: Coq kernel; rational stub fluid (shipped fluids: C18); jacfwd/spsolve affect only convergence; time "
+         "interpolation by scipy interp1d mirrored in the harness.",
+    technique="Coq proof (list induction, field algebra over Q) + residual/certificate correspondence by vm_compute",
+    design="4/C14")
+
 NOT_YET = {}
 
 def main():
